@@ -24,12 +24,55 @@ func stat(k string) {
 
 // gen builds a case adaptively against a live net of real nodes
 type gen struct {
-	r      *rand.Rand
-	nt     *net
-	ops    []string
-	seen   []map[int]bool // per node position: log entries already handed to it by the generator
-	faulty []int
-	group  []int // partition of the correct nodes during the asynchronous prefix
+	r       *rand.Rand
+	nt      *net
+	ops     []string
+	seen    []map[int]bool // per node position: log entries already handed to it by the generator
+	faulty  []int
+	group   []int // partition of the correct nodes during the asynchronous prefix
+	hostile bool  // sprinkle ill-formed / refused / untimely ops
+}
+
+// junk emits one op the machinery must reject (or treat as a no-op) on both sides
+func (g *gen) junk() {
+	n := len(g.nt.w.powers)
+	c := g.idx(g.r.Intn(len(g.nt.nodes)))
+	f := n + g.r.Intn(2)
+	if len(g.faulty) > 0 && g.r.Intn(2) == 0 {
+		f = g.faulty[g.r.Intn(len(g.faulty))]
+	}
+	ops := []string{
+		fmt.Sprintf("dl node=%d k=%d", f, g.r.Intn(len(g.nt.log)+1)),
+		fmt.Sprintf("dl node=%d k=%d", c, len(g.nt.log)+g.r.Intn(3)),
+		fmt.Sprintf("dl node=%d", c),
+		fmt.Sprintf("dl k=0 node=%d extra=1", c),
+		fmt.Sprintf("byz vote t=pv r=%d b=nil v=%d", g.maxRound(), c),
+		fmt.Sprintf("byz vote t=px r=0 b=nil v=%d", f),
+		fmt.Sprintf("byz vote t=pc r=0 b=%d v=%d", g.nt.w.nIDs()+g.r.Intn(2), f),
+		fmt.Sprintf("byz vote t=pc r=1001 b=nil v=%d", f),
+		fmt.Sprintf("byz prop r=%d b=0 pol=-1 by=%d", g.maxRound(), c),
+		fmt.Sprintf("byz prop r=0 b=%d pol=-1 by=%d", g.nt.w.nIDs(), f),
+		fmt.Sprintf("byz prop r=0 b=0 pol=-1001 by=%d", f),
+		fmt.Sprintf("byz block b=%d", g.nt.w.invalid()+1+g.r.Intn(2)),
+		"byz",
+		"byz gossip x=1",
+		fmt.Sprintf("claim node=%d from=%d", c, f),
+		fmt.Sprintf("claim node=%d from=%d", f, c),
+		fmt.Sprintf("byzclaim node=%d peer=%d t=pv r=0 b=nil", c, 1+c),
+		fmt.Sprintf("byzclaim node=%d peer=0 t=pv r=0 b=nil", c),
+		fmt.Sprintf("byzclaim node=%d peer=%d t=pc r=0 b=0", c, n+1+g.r.Intn(2)),
+		fmt.Sprintf("byzclaim node=%d peer=%d t=pc r=1001 b=0", c, 1+f),
+		fmt.Sprintf("byzclaim node=%d peer=%d t=pc r=0", c, 1+f),
+		fmt.Sprintf("fire node=%d", f),
+		fmt.Sprintf("fire node=%d x=1", c),
+		"fire",
+		"closure now",
+		"sync now",
+		"end now",
+		"frobnicate",
+		"cfg n=0",
+	}
+	g.do(ops[g.r.Intn(len(ops))])
 }
 
 func newGen(r *rand.Rand, w *world, correct []int) *gen {
@@ -219,6 +262,9 @@ func (g *gen) randomPrefix(steps int) {
 		if st%25 == 24 && g.r.Intn(2) == 0 {
 			g.repartition()
 		}
+		if g.hostile && g.r.Intn(12) == 0 {
+			g.junk()
+		}
 		i := g.r.Intn(len(g.nt.nodes))
 		if !g.nt.nodes[i].live() {
 			continue
@@ -276,6 +322,20 @@ func (g *gen) syncSuffix(maxFires int, byzKeepsGoing bool) {
 		}
 		if byzKeepsGoing && g.r.Intn(4) == 0 {
 			g.byzAction()
+			continue
+		}
+		if g.hostile && g.r.Intn(3) == 0 {
+			switch g.r.Intn(3) {
+			case 0:
+				g.junk()
+			case 1:
+				// a timeout while messages are still in flight
+				g.byzAction()
+				g.do(fmt.Sprintf("fire node=%d", g.idx(g.r.Intn(len(g.nt.nodes)))))
+			default:
+				// a timeout that is not due yet (if there is one), or one of a node without a timer
+				g.do(fmt.Sprintf("fire node=%d", g.idx(g.r.Intn(len(g.nt.nodes)))))
+			}
 			continue
 		}
 		var pend []int
@@ -366,10 +426,11 @@ func pickWorld(r *rand.Rand) *world {
 
 // ---- generated cases ----
 
-func genRandom(r *rand.Rand, steps int) core.Case {
+func genRandom(r *rand.Rand, steps int, hostile bool) core.Case {
 	w := pickWorld(r)
 	faulty := pickFaulty(r, w.powers)
 	g := newGen(r, w, complement(len(w.powers), faulty))
+	g.hostile = hostile
 	for i := range g.nt.nodes {
 		if r.Intn(6) != 0 {
 			g.fire(i)
@@ -377,6 +438,9 @@ func genRandom(r *rand.Rand, steps int) core.Case {
 	}
 	g.randomPrefix(steps/2 + r.Intn(steps))
 	g.syncSuffix(90, r.Intn(2) == 0)
+	if hostile {
+		return g.finish("hostile")
+	}
 	return g.finish("random")
 }
 
@@ -545,7 +609,7 @@ func genCommitNoBlock(r *rand.Rand) core.Case {
 func genSkipPath(r *rand.Rand) core.Case {
 	sk := getSkewed()
 	if len(sk) == 0 {
-		return genRandom(r, 40)
+		return genRandom(r, 40, false)
 	}
 	s := sk[r.Intn(len(sk))]
 	w := getWorld(s.powers, s.prios, s.prop)
